@@ -147,3 +147,67 @@ def squash_other_session_replaces_lines_with_shared_prefix():
         return s.kinds()
     finally:
         s.destroy()
+
+
+def restore_discards_pending_lines_then_person_types_there():
+    """D55: pending AI line at the top of f (left out by a commit of another file, so only INITIAL holds it); `git restore -- f`
+    discards it; a person (reported by an IDE-style checkpoint) types three lines at the top; commit => the person's first line is
+    committed as AI: `git restore` (like `git checkout f` without `--`) is not handled and the stale INITIAL survives."""
+    s = Script("d55", files=2)
+    try:
+        f0 = [s.line("human") for _ in range(4)]
+        g0 = [s.line("human") for _ in range(4)]
+        s.human_write("f.txt", f0); s.human_write("g.txt", g0); s.commit_all("init")
+        s.ai_write("S2", "f.txt", [s.line("S2")] + f0)
+        s.human_write("g.txt", g0[:2] + [s.line("human")] + g0[2:])
+        s.g("add", "--", "g.txt"); s.g("commit", "-q", "-m", "only another file")
+        s.g("restore", "--", "f.txt")
+        s.human_write("f.txt", [s.line("human"), s.line("human"), s.line("human")] + f0, ckpt=True)
+        s.commit_all("after restore")
+        s.check_notes("w"); s.check_blame_tip("w", rule="C03", complete=False)
+        return s.kinds()
+    finally:
+        s.destroy()
+
+
+def reset_path_with_dash_name_loses_prompt_record():
+    """D56: S1's three lines in f are pending (INITIAL) after a commit of `-dash.txt` only, whose edit a person reported by a
+    checkpoint; `git add -A; git reset -q -- -dash.txt`; the person edits `-dash.txt`; commit => the note lists S1's hash for f
+    without a prompt record (the pathspec reset archived the working log with its INITIAL prompts; a name starting with a dash)."""
+    from .c02 import _mk
+    s = _mk("d56", files=2)
+    try:
+        a0 = [s.line("human") for _ in range(6)]; f0 = [s.line("human") for _ in range(4)]
+        s.human_write("-dash.txt", a0); s.human_write("f.txt", f0); s.commit_all("init")
+        s.ai_write("S1", "f.txt", [s.line("S1") for _ in range(3)] + f0)
+        s.human_write("-dash.txt", a0[:5] + [s.line("human")] + a0[5:], ckpt=True)
+        s.g("add", "--", "-dash.txt"); s.g("commit", "-q", "-m", "only another file")
+        s.g("add", "-A")
+        s.g("reset", "-q", "--", "-dash.txt")
+        s.human_write("-dash.txt", a0 + [s.line("human")])
+        s.commit_all("after reset path")
+        s.check_notes("w"); s.check_blame_tip("w", rule="C03", complete=False)
+        return s.kinds()
+    finally:
+        s.destroy()
+
+
+def person_edits_untracked_file_with_pending_ai_lines_across_a_commit():
+    """D57: S1 creates g.txt (5 lines) which stays untracked; a commit of nothing turns its lines into INITIAL-only pending claims;
+    a person (checkpoint taken) deletes two of them and appends two own lines; another commit that does not include g.txt; then
+    everything is committed => the person's lines 4-5 were committed as S1's: the pre-commit checkpoint skipped untracked files
+    whenever the working log had no agent checkpoint, although INITIAL claimed lines in one."""
+    s = Script("d57", files=1)
+    try:
+        f0 = [s.line("human") for _ in range(3)]
+        s.human_write("f.txt", f0); s.commit_all("init")
+        ai = [s.line("S1") for _ in range(5)]
+        s.ai_write("S1", "g.txt", ai)
+        s.g("commit", "-q", "--allow-empty", "-m", "nothing staged")
+        s.human_write("g.txt", ai[:1] + ai[2:4] + [s.line("human"), s.line("human")], ckpt=True)
+        s.g("commit", "-q", "--allow-empty", "-m", "nothing staged again")
+        s.commit_all("everything")
+        s.check_notes("w"); s.check_blame_tip("w", rule="C03")
+        return s.kinds()
+    finally:
+        s.destroy()
